@@ -11,6 +11,8 @@ ENGINES = [
      'kind_free_text': 'z3 string/regex obligations generated from the live Lark terminals and per-state contextual scanners'},
     {'name': 'GX', 'path': 'vf/gx.py, vf/refgrammar.py', 'serves_properties': ['C01', 'C07', 'C18'],
      'kind_free_text': 'CYK-style derivability of a symbolic token string in z3 for the live Lark.rules vs a frozen reference grammar, with explicit operator/property brackets for structure'},
+    {'name': 'IE', 'path': 'vf/ieee.py', 'serves_properties': ['C13'],
+     'kind_free_text': 'comparison skeleton of Boolean expressions over z3 Float64 operands (NaN and infinities included); models replayed with Python floats'},
     {'name': 'TR', 'path': 'vf/tr.py', 'serves_properties': ['C12'],
      'kind_free_text': 'z3 formula of the reference trace semantics generated from real HplProperty objects over a symbolic timed trace; Python evaluator for replay'},
     {'name': 'SX', 'path': 'vf/sx.py, vf/harness/', 'serves_properties': ['C08', 'C11', 'C14'],
@@ -65,7 +67,7 @@ CHECKS.update({
     },
     'C13': {
         'engine': 'EQ', 'category': 'other', 'design_ref': 'DESIGN.md 1 (EQ), 4 (C13)',
-        'text': 'Real negate/join/replace_*/event alias normalisation on enumerated trees incl. one tree per (node kind x child slot); z3 decides each semantic identity for all valuations with the alias bound to the current message.',
+        'text': 'Real negate/join/replace_*/event alias normalisation on enumerated trees incl. one tree per (node kind x child slot); z3 decides each semantic identity for all valuations with the alias bound to the current message; negate/join are also decided under an IEEE (Float64, NaN/inf) reading of the comparison skeleton (vf/ieee.py).',
         'note': 'Trusted: z3, vf/sem.py semantics.',
         'technique': 'z3 equivalence of real rewrite input/output over all valuations (bounded trees, arrays up to K)',
     },
